@@ -1,5 +1,26 @@
-import Secp.Hand.History
-/-! # C14 — placeholder: theorems are being added in this session -/
+import Secp.Proofs.BitsSpec
+/-!
+# C14 — the scalar bit expansion is the exact 256-bit binary representation
+
+Model of the code: `Hand.Scalar.bits s = bitsOf (FiatScalar.fromMontgomery s)` — the generated `FromMontgomery`
+followed by the shift-and-mask loop, whose trip count and body text are read from the source on every run
+(`Facts.bitsLoopBound`, `Facts.bitsLoopBody`). Canonical value of `s`: `(sVal s).val`, `sVal s = eval·R⁻¹ ∈ ZMod n`.
+On the pinned tree the loop bound was 255 (defect F1, commit 660d03b): with that bound `bound_eq` below is false.
+-/
 namespace C14
-theorem model_is_total : True := trivial
+
+/-- **C14**: for every canonical scalar, `Bits` returns 256 entries, entry `i` equal to bit `i` of the canonical
+value (hence 0 or 1), and `Σ bits[i]·2^i` is the value. -/
+theorem bits_spec (s : L4) (hs : sOk s) :
+    (Hand.Scalar.bits s).length = 256 ∧
+    (∀ i, i < 256 → (Hand.Scalar.bits s).getD i 2 = (sVal s).val / 2 ^ i % 2) ∧
+    evalBits (Hand.Scalar.bits s) = (sVal s).val := _root_.bits_spec s hs
+
+/-- the loop covers all 256 positions with the expected body (regenerated facts) -/
+theorem loop_facts : Facts.bitsLoopBound = 256 ∧
+    Facts.bitsLoopBody = "{ out[i] = uint8((n[i/64] >> (i % 64)) & 1) }" := by decide
+
+-- non-vacuity: n-1 (bit 255 set) is a canonical scalar
+example : sOk Hand.Scalar.minusOne := ⟨by decide, by decide⟩
+
 end C14
